@@ -2383,7 +2383,7 @@ class Interp:
                     return self.finish_model(st, fr, t, r_)
         # checked conversions between integer types
         for path, ga in cands:
-            if _re.match(r"^core::convert::num::<impl core::convert::TryFrom<\w+> for \w+>::try_from$", path) or \
+            if _re.match(r"^core::convert::num::(?:\w+::)?<impl core::convert::TryFrom<\w+> for \w+>::try_from$", path) or \
                     _re.match(r"^<\w+ as core::convert::TryFrom<\w+>>::try_from$", path):
                 if len(args) == 1 and isinstance(args[0], Num):
                     from .models import m_int_try_from
